@@ -260,3 +260,66 @@ Proof.
   - set (y := eps / (Rabs K + 1)). assert (Hy : 0 < y) by (apply Rdiv_lt_0_compat; lra).
     replace eps with (y * (Rabs K + 1)) by (unfold y; field; lra). pose proof (Rabs_pos K). nra.
 Qed.
+
+(* ---- vertex normals of the whole mesh: strip (cos, +-0.1, sin) (normalising is a positive scaling), top circle (0, 1, 0),
+        bottom circle (0, 1, 0) turned by pi about the x axis = (0, -1, 0) ---- *)
+Definition cyl_nrmR (n : N) (v : N) : rvec :=
+  let t := strip_nverts n in
+  let b := (t + circle_nverts n)%N in
+  if (v <? t)%N then (cos (ang n (v / 2)), (if (v mod 2 =? 0)%N then 1 / 10 else - (1 / 10)), sin (ang n (v / 2)))
+  else if (v <? b)%N then (0, 1, 0)
+  else (0, -1, 0).
+
+Lemma nrm_top : forall n k, (k <= n)%N -> cyl_nrmR n (2 * k) = (cos (ang n k), 1 / 10, sin (ang n k)).
+Proof.
+  intros n k Hk. unfold cyl_nrmR, strip_nverts. destruct (N.ltb_spec (2 * k) (2 * n + 2)); [|lia].
+  replace (2 * k / 2)%N with k by lia. replace ((2 * k) mod 2)%N with 0%N by lia. reflexivity.
+Qed.
+Lemma nrm_bot : forall n k, (k <= n)%N -> cyl_nrmR n (2 * k + 1) = (cos (ang n k), - (1 / 10), sin (ang n k)).
+Proof.
+  intros n k Hk. unfold cyl_nrmR, strip_nverts. destruct (N.ltb_spec (2 * k + 1) (2 * n + 2)); [|lia].
+  replace ((2 * k + 1) / 2)%N with k by lia. replace ((2 * k + 1) mod 2)%N with 1%N by lia. reflexivity.
+Qed.
+Lemma nrm_tcap : forall n k, (k <= n)%N -> cyl_nrmR n (k + strip_nverts n) = (0, 1, 0).
+Proof.
+  intros n k Hk. unfold cyl_nrmR, strip_nverts, circle_nverts.
+  destruct (N.ltb_spec (k + (2 * n + 2)) (2 * n + 2)); [lia|].
+  destruct (N.ltb_spec (k + (2 * n + 2)) (2 * n + 2 + (n + 1))); [reflexivity|lia].
+Qed.
+Lemma nrm_bcap : forall n k, cyl_nrmR n (k + (strip_nverts n + circle_nverts n)) = (0, -1, 0).
+Proof.
+  intros n k. unfold cyl_nrmR, strip_nverts, circle_nverts.
+  destruct (N.ltb_spec (k + (2 * n + 2 + (n + 1))) (2 * n + 2)); [lia|].
+  destruct (N.ltb_spec (k + (2 * n + 2 + (n + 1))) (2 * n + 2 + (n + 1))); [lia|reflexivity].
+Qed.
+
+(* a triangle of (position, normal) corners: every corner's normal on the outer side of the triangle *)
+Definition pn_outer (t : (rvec * rvec) * (rvec * rvec) * (rvec * rvec)) : Prop :=
+  let '((a, na), (b, nb), (c, nc)) := t in
+  let n := rfnormal (a, b, c) in 0 < rdot n na /\ 0 < rdot n nb /\ 0 < rdot n nc.
+
+Lemma topcap_nrm : forall rad h c0 s0 c1 s1 : R,
+  rdot (rfnormal ((c0 * rad, h / 2, s0 * rad), (0, h / 2, 0), (c1 * rad, h / 2, s1 * rad))) (0, 1, 0)
+  = rad * rad * (c0 * s1 - s0 * c1).
+Proof. intros. unfold rfnormal, rdot, rcross, rsub. ring. Qed.
+Lemma botcap_nrm : forall rad h c0 s0 c1 s1 : R,
+  rdot (rfnormal ((c0 * rad, - (h / 2), - (s0 * rad)), (0, - (h / 2), 0), (c1 * rad, - (h / 2), - (s1 * rad)))) (0, -1, 0)
+  = rad * rad * (c0 * s1 - s0 * c1).
+Proof. intros. unfold rfnormal, rdot, rcross, rsub. ring. Qed.
+
+Theorem cyl_all_normals_outward : forall n rad h, (3 <= n)%N -> 0 < rad -> 0 < h ->
+  Forall pn_outer (tris_of (map (fun v => (cyl_posR n rad h v, cyl_nrmR n v)) (cyl_idx n))).
+Proof.
+  intros n rad h Hn Hr Hh. assert (Hn1 : (1 <= n)%N) by lia. pose proof (sin_step_pos n Hn) as S.
+  assert (P : 0 < rad * rad * sin (2 * PI / NR n)) by (repeat apply Rmult_lt_0_compat; assumption).
+  rewrite (cyl_idx_struct _ n Hn1). rewrite !Forall_app, Forall_flat_map, !Forall_map.
+  repeat split; apply Forall_forall; intros k Hk; apply nseq_in in Hk.
+  - rewrite !pos_bot, !pos_top, !nrm_bot, !nrm_top by lia.
+    destruct (column_normals_outward rad h (cos (ang n k)) (sin (ang n k)) (cos (ang n (k + 1))) (sin (ang n (k + 1))) Hr Hh)
+      as (F1 & F2 & F3 & F4 & F5 & F6 & _); [rewrite turn_next by exact Hn1; exact S|].
+    repeat constructor; assumption.
+  - pose proof (sn_lt n k Hk). rewrite pos_tc, !pos_trim, !nrm_tcap by lia. unfold pn_outer.
+    rewrite topcap_nrm, turn_wrap by assumption. auto.
+  - pose proof (sn_lt n k Hk). rewrite pos_bc, !pos_brim, !nrm_bcap by lia. unfold pn_outer.
+    rewrite botcap_nrm, turn_wrap by assumption. auto.
+Qed.
